@@ -472,6 +472,9 @@ def compare_views(want, got_ip, tol32=False):
                 return f"{p}: value not numeric"
             if len(gv) != len(vals):
                 return f"{p}: {len(gv)} values instead of {len(vals)}"
+            if tol32:
+                import numpy as np
+                vals = [frac(float(np.float32(float(x)))) for x in vals]
             if gv != vals:
                 return f"{p}: values differ"
     return None
@@ -572,7 +575,13 @@ def run_container_case(run: Run, ops, intents, shapes, meta, tmpdir, rng):
         back_l = f"(Err {err_class(e1)})"
         oracle("table", None, e1, "to_dataframe()")
     # to_pytorch / from_pytorch
-    t_l, t, e1 = res_lit(ip.to_pytorch, torch_lit)
+    try:
+        t_l, t, e1 = res_lit(ip.to_pytorch, torch_lit)
+    except Unencodable:
+        for k, ten in ip.to_pytorch()[1].items():
+            if ten.dtype != torch.float32 or ten.ndim != 2 or ten.shape[0] != len(ip._indices):
+                run.fail("to_pytorch:not-2d-float32", f"tensor of {k} has dtype {ten.dtype}, shape {tuple(ten.shape)}", inp)
+        raise
     if t is not None:
         for k, ten in t[1].items():
             if ten.dtype != torch.float32 or ten.ndim != 2 or ten.shape[0] != len(ip._indices):
@@ -936,7 +945,7 @@ def check(run: Run):
                 "with >= 1 accepted ID and (>= 1 parameter or >= 2 additions), or a rejected/outside-model addition; distinct by literal.")
     tmpdir = tempfile.mkdtemp(prefix="c16-")
     try:
-        nA = 30000 if thorough else 1400
+        nA = 30000 if thorough else 1200
         nB = 5000 if thorough else 300
         nC = 4000 if thorough else 250
         nD = 1500 if thorough else 150
@@ -1012,7 +1021,7 @@ def replay(run: Run, path: str):
     for name, f in steps:
         try:
             v = f()
-            diff = compare_views(want, v) if want is not None else "n/a"
+            diff = compare_views(want, v, tol32=name.startswith("from_pytorch")) if want is not None else "n/a"
             print(f"{name}: {'same identifiers, names, sizes, values' if diff is None else diff}")
             bad += diff is not None
         except Exception as e:  # noqa
